@@ -113,8 +113,10 @@ func buildContracts(run *vh.Run) *cworld {
 		var touched []string
 		for ci, addr := range w.contracts {
 			skip := rng.Chance(1, 3)
-			if (r == rounds-1 && acct[string(addr)] == nil) || (ci == 1 && r == wipeAt) {
-				skip = false // every account exists at the last root; the wipe takes place
+			if (r == rounds-1 && acct[string(addr)] == nil) || (ci == 1 && r == wipeAt) || (r == 0 && ci == 0) {
+				// every account exists at the last root; the wipe takes place; no block leaves the state root empty
+				// (an empty root cannot be REQUESTED: in the API it means "the latest root")
+				skip = false
 			}
 			if skip {
 				continue
